@@ -197,6 +197,24 @@ def build(reg, src):
     frames_popped_on_every_exit.__name__ = 'frames-popped-on-every-exit'
     reg.extra_checks.append(frames_popped_on_every_exit)
 
+    # ... and the parse cache of __call__ may only memoise texts whose parsing has no effect of its own (the parser switches the module
+    # at `.module`): otherwise the same text in the same state is evaluated differently the second time (contracts/c04_parsecache.py)
+    def parse_cache_is_effect_free(ctx):
+        from pyvc.subverify import subverify
+        from contracts import c04_parsecache as pc
+        import replay.c04 as rp4
+        key = 'klongpy/interpreter.py::KlongInterpreter.__call__'
+        rows, _ = subverify(src, 'C04', pc, [key], replay=rp4.replay_parse_cache_module,
+                            why='a parsed program is memoised only if parsing it left the active module unchanged')
+        rows = [r for r in rows if 'parse-cache' in r['name'] or r.get('undecided')]      # __call__'s other obligations belong to C03 / C05
+        if not any('parse-cache' in r['name'] for r in rows):
+            rows.append(dict(name=key + '#parse-cache.no-store-found', ok=False, undecided=True, backend='z3', detail='no store into _parse_cache met'))
+        if src.find(key) is not None:
+            ctx['eng'].verified[key + ' (parse cache)'] = dict(sha=src.sha(src.find(key)), backend='z3 (contracts/c04_parsecache.py)')
+        return rows
+    parse_cache_is_effect_free.__name__ = 'parse-cache-is-effect-free'
+    reg.extra_checks.append(parse_cache_is_effect_free)
+
     # ... and the per-node memo of the compile decision must not make a later evaluation depend on what the variables held EARLIER:
     # compiled code is only called on the kinds of value it was admitted for (C05's structural obligation, also a C04 matter)
     def compiled_memo_is_history_free(ctx):
